@@ -146,6 +146,8 @@ class DefUse:
                 return ("fn", i.get("p"))
             if "str" in i:
                 return ("const", i["str"])
+            if "txt" in i:
+                return ("const", i["txt"])
             if "def" in i:
                 return ("constdef", i["def"])
             return ("const", None)
